@@ -26,6 +26,7 @@ var mapFamily = map[string]string{
 	"F1": `function(doc, meta){ if (doc.v !== undefined) emit(doc.v, meta.id); }`,
 	"F2": `function(doc, meta){ if (Array.isArray(doc.w)) { for (var i = 0; i < doc.w.length; i++) emit(doc.w[i], doc.v === undefined ? null : doc.v); } }`,
 	"F3": `function(doc, meta){ if (meta.xattrs && meta.xattrs._sync && meta.xattrs._sync.r !== undefined) emit(meta.xattrs._sync.r, (doc.v === undefined) ? null : doc.v); }`,
+	"F5": `function(doc, meta){ emit(meta.id, doc); }`,
 	"F4": `function(doc, meta){ emit([doc.s === undefined ? null : doc.s, doc.v === undefined ? null : doc.v], 1); }`,
 }
 
@@ -98,6 +99,8 @@ func evalMap(fam string, id string, d Doc) []vrow {
 				}
 			}
 		}
+	case "F5":
+		out = append(out, vrow{id, id, doc}) // the body itself, whatever JSON value it is
 	case "F4":
 		out = append(out, vrow{id, []any{orNull("s"), orNull("v")}, float64(1)})
 	}
